@@ -36,7 +36,7 @@ def parse_module(E, extra_derives=(), std_derives=("Debug", "Clone", "PartialEq"
     """module that parses every input with FromStr and TryFrom"""
     err = err_type(E)
     src = HEADER
-    src += D.print_enum(E, ["EnumString"] + list(extra_derives), std_derives=std_derives) + "\n"
+    src += D.in_user_scope(D.print_enum(E, ["EnumString"] + list(extra_derives), std_derives=std_derives), E) + "\n"
     src += probe_impl(E)
     if E["id"] % 2 == 0:
         src += D.decoys(E, ["EnumString"] + list(extra_derives))
@@ -68,7 +68,7 @@ def names_module(E, derives=("Display", "AsRefStr", "IntoStaticStr", "VariantNam
     if sers:
         ds.append("EnumMessage")
     src = HEADER
-    src += D.print_enum(E, ds) + "\n"
+    src += D.in_user_scope(D.print_enum(E, ds), E) + "\n"
     if parse:
         src += probe_impl(E)
     if E["id"] % 2 == 0:
